@@ -208,7 +208,7 @@ def pywbem_requests_exception(exc, conn):
 
     assert isinstance(exc, requests.exceptions.RequestException)
 
-    message = exc.args[0]
+    message = exc.args[0] if exc.args else type(exc).__name__
 
     # Handle the case where requests puts an urllib3 exception into the
     # first argument, instead of a message.
